@@ -272,4 +272,27 @@ def sdkSwap (p : PoolD) (ticks : TickMap) (asc : List Int) (amount limit : Nat) 
           let swapped := amount - s.remaining
           .ok (if aToB = isInput then swapped else s.calculated, if aToB = isInput then s.calculated else swapped, s.fee)
 
+/-! ### transfer fees of the quote functions (math/token.rs `try_apply_transfer_fee`, `try_reverse_apply_transfer_fee`) -/
+
+/-- `try_apply_transfer_fee`: the amount left after the fee (`u128::div_ceil`, capped at `max_fee`) -/
+def sdkApplyTF (amount bps maxFee : Nat) : R Nat :=
+  if bps > 10000 then .error .Other
+  else if bps = 0 || amount = 0 then .ok amount
+  else
+    let raw := (amount * bps + 10000 - 1) / 10000
+    if raw > U64_MAX then .error .Other
+    else .ok ((amount + TWO64 - min raw maxFee) % TWO64)
+
+/-- `try_reverse_apply_transfer_fee`: the amount before the fee -/
+def sdkReverseTF (amount bps maxFee : Nat) : R Nat :=
+  if bps > 10000 then .error .Other
+  else if bps = 0 then .ok amount
+  else if amount = 0 then .ok 0
+  else if bps = 10000 then (if amount + maxFee ≤ U64_MAX then .ok (amount + maxFee) else .error .Other)
+  else
+    let raw := (amount * 10000 + (10000 - bps) - 1) / (10000 - bps)
+    if raw < amount then .error .Other
+    else if raw - amount ≥ maxFee then (if amount + maxFee ≤ U64_MAX then .ok (amount + maxFee) else .error .Other)
+    else if raw ≤ U64_MAX then .ok raw else .error .Other
+
 end WP
